@@ -91,9 +91,9 @@ func tierParams(thorough bool) params {
 		}
 	}
 	return params{
-		// <=3 lines over the five lines that can share a key, <=2 lines over the first 8, all three nested
-		// subnets together, and every one-line file
-		fams:      []family{{firstLines(shareKey), 3}, {firstLines(8), 2}, {[]int{5, 6, 8}, 3}, {firstLines(len(alphabet)), 1}},
+		// <=3 lines over the first 6 (the five lines that can share a key and n1), <=2 lines over all 10,
+		// and all three nested subnets together
+		fams:      []family{{firstLines(6), 3}, {firstLines(len(alphabet)), 2}, {[]int{5, 6, 8}, 3}},
 		maxOrders: 24, strictMax: 3, allFaults: true, bfsDepth: 3, walkDepth: 3, walkLines: []int{0, 1, 2, 3, 5, 6},
 	}
 }
